@@ -1248,6 +1248,10 @@ def run(ctx):
                        "every relative ADDRESS order of (ephemeron, value, dependent ephemeron, its key) via placeholders and recycled holes, "
                        "values reaching the next key through 0-3 ordinary objects, achieved order read back from the harness and the heap "
                        "dumps; frag family: descriptor owners and ephemerons behind a large free chunk. "
+                       "round 4: auto family (90 histories on the embedding): NATURAL automatic collections placed exactly inside chosen "
+                       "allocating operations (AK/AC/AE: heap filled with same-size garbage first, so sexp_alloc collects inside the operation; "
+                       "achieved count read back from the harness): inside make-ephemeron with no / another ephemeron alive, with dropped ports, "
+                       "random heap histories with 40% of the allocations collecting; model = AutoGc.run_sched (gated, scheduled machine). "
                        "round 3: immediates (17 #t #\\a '() 0) as keys and values (3% of the random stream; imm family: 60 histories each in a "
                        "FRESH bare context whose first ephemerons have a heap key + immediate value / an immediate key + heap value / mixtures); "
                        "ports opened with the shutdown flag on pipes, files and socket pairs (48+32 scripted: two flagged ports on one fileno, "
